@@ -24,18 +24,28 @@ Definition is_text1 (s : seg) : bool := (fst s =? "text") || (fst s =? "tspan") 
 Fixpoint drop_while {A} (f : A -> bool) (l : list A) : list A :=
   match l with x :: r => if f x then drop_while f r else l | [] => [] end.
 
+Definition is_grad (t : string) : bool := (t =? "linearGradient") || (t =? "radialGradient").
+(* what may follow /svg[0]/defs[0]: nothing, a gradient, or a gradient and one of its stops *)
+Definition defs_tail (r : xpath) : bool :=
+  match r with
+  | [] => true
+  | [(t, _)] => is_grad t
+  | [(t, _); (s, _)] => is_grad t && (s =? "stop")
+  | _ => false
+  end.
 Definition allowed (allow_text : bool) (p : xpath) : bool :=
   match p with
-  | [("svg", O)] => true
-  | [("svg", O); ("defs", O)] => true
-  | [("svg", O); ("defs", O); (t, _)] => (t =? "linearGradient") || (t =? "radialGradient")
-  | [("svg", O); ("defs", O); (t, _); ("stop", _)] => (t =? "linearGradient") || (t =? "radialGradient")
-  | ("svg", O) :: s :: rest =>
-      (forallb is_pg (s :: rest)) ||
-      (allow_text && is_text0 s &&
-       (* (text|textPath)+ then (text|tspan|textPath)* *)
-       forallb is_text1 (drop_while is_text0 (s :: rest)))
-  | _ => false
+  | (t0, n0) :: rest =>
+      (t0 =? "svg") && Nat.eqb n0 0 &&
+      match rest with
+      | [] => true
+      | (t1, n1) :: r1 =>
+          ((t1 =? "defs") && Nat.eqb n1 0 && defs_tail r1) ||
+          forallb is_pg rest ||
+          (* (text|textPath)+ then (text|tspan|textPath)* *)
+          (allow_text && is_text0 (t1, n1) && forallb is_text1 (drop_while is_text0 rest))
+      end
+  | [] => false
   end.
 
 (* index of each child among its same-named siblings (defaultdict counter of _traverse) *)
